@@ -360,13 +360,13 @@ func r3(c *core.Ctx, s *Sender) {
 	}
 	twice := false
 	for _, d := range s.Data { // a second Send reachable from a first within one iteration
-		dp, ok := s.LG.Find(d)
+		dp, ok := s.LG.Find(d.Call)
 		if !ok || rhead == nil {
 			continue
 		}
 		reach := BlocksFrom(dp, true, nil, rhead)
 		for _, e := range s.Data {
-			ep, ok := s.LG.Find(e)
+			ep, ok := s.LG.Find(e.Call)
 			if ok && (reach[ep.B] || ep.B == dp.B && ep.I > dp.I) {
 				twice = true
 			}
@@ -374,7 +374,11 @@ func r3(c *core.Ctx, s *Sender) {
 	}
 	c.Check(rule, "one-send-per-item", s.Range.Pos(), !twice,
 		fmt.Sprintf("within one iteration over the batch at most one conn.Send may execute (%d Send sites, one reachable from another): each extra Send applies every command of the batch once more on the target", len(s.Data)))
-	call := s.Data[0]
+	site := s.Data[0]
+	call := &ast.CallExpr{Fun: site.Call.Fun, Args: site.Args, Lparen: site.Call.Lparen, Rparen: site.Call.Rparen}
+	if site.Ellipsis {
+		call.Ellipsis = site.Call.Rparen
+	}
 	okArgs := len(call.Args) == 2 && call.Ellipsis.IsValid() &&
 		isFieldOf(info, call.Args[0], s.ItemVar, "Cmd") && isFieldOf(info, call.Args[1], s.ItemVar, "Args")
 	if okArgs {
@@ -384,12 +388,12 @@ func r3(c *core.Ctx, s *Sender) {
 	} else {
 		c.Undecidedf(rule, "send-args", call.Pos(), "`%s` is not the known Send(item.Cmd, item.Args...) form", c.Src(call))
 	}
-	if dp, ok := s.LG.Find(call); ok {
+	if dp, ok := s.LG.Find(site.Call); ok {
 		// every iteration executes the Send: the loop head is not reachable from the body start without it
 		body, head := rbody, rhead
 		isData := func(n ast.Node) bool {
 			for _, d := range s.Data {
-				if p, ok := s.LG.Find(d); ok && p.Node() == n {
+				if p, ok := s.LG.Find(d.Call); ok && p.Node() == n {
 					return true
 				}
 			}
